@@ -492,6 +492,43 @@ def crafted(rng):
     for pl in (4, 8, 12, 65536):
         pkt = struct.pack("<BBH", 2, 0, pl - 1) + bytes(pl - 4)
         out.append(("crafted-ignored-length-%d" % pl, build(pc_xml(2, '<cartesianX type="Float"/>'), cv([pkt, good])), "ignored packet of declared length %d before a data packet" % pl))
+    # index / ignored packets whose declared length ends exactly at the end of the file, one page before it, just behind it and
+    # far behind it - as first packet and after two data packets; the section is the LAST thing in the file (XML in front of it).
+    # The rest of such a packet cannot be read: both iterators must return an error (seeded change C09f: a skip loop without
+    # end-of-file check never returns)
+    def build_tail(xml, section_wo_tail, tail_header, pages_after):
+        """header, XML, section ..., packet header at offset P, zeros to the end of the last page; returns (file, P, logical size)"""
+        log = bytearray(48) + bytearray(xml)
+        while len(log) % 4:
+            log.append(0)
+        fo = len(log)
+        log += section_wo_tail
+        P = len(log)
+        log += tail_header
+        n = (len(log) + 1019) // 1020 + pages_after
+        size = n * 1020
+        return fo, P, size, log
+    for first in (True, False):
+        for ptype in ("ignored", "index"):
+            hdr_len = 4 if ptype == "ignored" else 16
+            pre = [] if first else [data_packet([rng.bytes(8)]), data_packet([rng.bytes(8)])]
+            for where in ("at-eof", "page-before-eof", "4-past-eof", "far-past-eof"):
+                xml0 = pc_xml(7, '<cartesianX type="Float"/>', fo=0)
+                # two passes: the XML carries the section offset, whose digits may change the layout
+                fo = 0
+                for _ in range(3):
+                    xml1 = pc_xml(7, '<cartesianX type="Float"/>', fo=phys_of_log(fo))
+                    sec_body = b"".join(pre)
+                    fo, P, size, log = build_tail(xml1, struct.pack("<B7xQQQ", 1, 0, 0, 0) + sec_body, bytes(hdr_len), 2)
+                R = size - P                      # bytes from the packet start to the logical end of the file
+                pl = {"at-eof": R, "page-before-eof": R - 1020, "4-past-eof": R + 4, "far-past-eof": 65536}[where]
+                th = struct.pack("<BBH", 2, 0, pl - 1) if ptype == "ignored" else struct.pack("<BBHHB9x", 0, 0, pl - 1, 0, 0)
+                log[P:P + hdr_len] = th
+                log[fo:fo + 32] = struct.pack("<B7xQQQ", 1, (P - fo + pl + 3) // 4 * 4, phys_of_log(fo + 32), 0)
+                log += bytes(size - len(log))
+                log[0:48] = b"ASTM-E57" + struct.pack("<IIQQQQ", 1, 0, size // 1020 * 1024, 48, len(xml1), 1024)
+                out.append(("crafted-%s-packet-%s%s" % (ptype, where, "" if first else "-after-data"), seal(log),
+                            "%s packet of declared length %d with %d bytes left in the file%s" % (ptype, pl, R, "" if first else ", after two data packets")))
     # huge record count over little data
     out.append(("crafted-huge-recordcount", build(pc_xml(U64, '<cartesianX type="Float"/>'), cv([data_packet([rng.bytes(40)])])), "recordCount 2^64-1, ten points of data"))
     # full 64-bit range integers
@@ -556,6 +593,8 @@ def meter(s):
 
 def parse_tot(line):
     """-> dict(sections=[...], panics=[...], crash=bool)"""
+    if line is not None and line.startswith("HANG"):
+        return dict(sections=[], panics=[], crash=False, hang=True, raw=line)
     if line is None or line.startswith("CRASH") or line.startswith("unknown-kind"):
         return dict(sections=[], panics=[], crash=True, raw=line)
     pan = []
@@ -620,16 +659,71 @@ def devtok(phys):
     return phys.hex() if phys else "-"
 
 
+def case_limit_s(line):
+    """wall-clock allowance for ONE case run alone: generous (the unchanged crate needs milliseconds for files of a few KB
+    and about a second for the largest bundled file under all option vectors), so that it never fires under load"""
+    return 60 + len(line) // 20000
+
+
+def run_alone(binary, line):
+    """one case in a process of its own; `HANG <seconds>` when it does not finish within its allowance"""
+    import subprocess
+    lim = case_limit_s(line)
+    try:
+        p = subprocess.run([binary], input=line + "\n", capture_output=True, text=True, timeout=lim, env=core.ENV_OFFLINE)
+    except subprocess.TimeoutExpired:
+        return "HANG %d" % lim
+    o = p.stdout.split("\n")[0] if p.stdout else ""
+    return o if o else "CRASH rc=%s %s" % (p.returncode, p.stderr[-200:].replace("\n", " "))
+
+
+def run_lines(binary, lines):
+    """like core.run_cases, but a call that does not return is a RESULT (`HANG`), not an infrastructure timeout: every shard has a
+    wall-clock limit; the cases of a shard that ran into it, and every case whose process died, are run again alone (16 at a
+    time), each with its own limit; a case that hangs alone is run a second time alone to confirm"""
+    import subprocess
+    from concurrent.futures import ThreadPoolExecutor
+    if not lines:
+        return []
+    shards = max(1, min(core.NPROC, len(lines)))
+    chunks = [list(range(i, len(lines), shards)) for i in range(shards)]
+    out = [None] * len(lines)
+
+    def work(idx):
+        lim = 120 + sum(len(lines[i]) for i in idx) // 200000
+        try:
+            p = subprocess.run([binary], input="\n".join(lines[i] for i in idx) + "\n", capture_output=True, text=True, timeout=lim, env=core.ENV_OFFLINE)
+        except subprocess.TimeoutExpired:
+            return
+        o = p.stdout.split("\n")
+        if o and o[-1] == "":
+            o.pop()
+        if len(o) == len(idx):
+            for i, x in zip(idx, o):
+                out[i] = x
+    with ThreadPoolExecutor(max_workers=shards) as ex:
+        list(ex.map(work, chunks))
+    todo = [i for i, x in enumerate(out) if x is None or x.startswith("CRASH")]
+    if todo:
+        with ThreadPoolExecutor(max_workers=core.NPROC) as ex:
+            for i, x in zip(todo, ex.map(lambda i: run_alone(binary, lines[i]), todo)):
+                out[i] = x
+        hung = [i for i in todo if out[i].startswith("HANG")]
+        if hung:                                             # confirm by a second run alone
+            with ThreadPoolExecutor(max_workers=core.NPROC) as ex:
+                for i, x in zip(hung, ex.map(lambda i: run_alone(binary, lines[i]), hung)):
+                    if not x.startswith("HANG"):
+                        out[i] = x
+    return out
+
+
 def run_tot(binary, muts, masks, prelude=(), cap="-"):
     """TOT on every mutant; cases whose process died are re-run alone so that the crash is attributed correctly"""
     mtok = ",".join(str(x) for x in masks) if masks != "all" else "all"
     outs = []
     for c0 in range(0, len(muts), 4000):       # in batches: the case lines are twice the size of the files
         lines = ["TOT %s %s %s" % (devtok(m["phys"]), mtok, cap) for m in muts[c0:c0 + 4000]]
-        o = core.run_cases(binary, lines, prelude=prelude)
-        for i in [i for i, x in enumerate(o) if x is None or x.startswith("CRASH")]:
-            o[i] = core.run_cases(binary, [lines[i]], shards=1, prelude=prelude)[0]
-        outs += o
+        outs += run_lines(binary, lines)
     return outs
 
 
@@ -739,6 +833,7 @@ def explore(rep, tier, rng, replay, profiles=("debug", "release")):
     r2 = core.Rng(rng.next())
     def points(t):
         return sum(int(x) for x in re.findall(r"raw:n=(\d+)", t["raw"] or ""))
+    # a file on which the first profile hangs or dies has no descriptors to hand to the model: take them from the other profile
     midx = [i for i, m in enumerate(muts)
             if points(tots[first][i]) <= MODEL_MAX_POINTS and
             (replay or len(m["phys"]) <= MODEL_MAX_BYTES or (not tots[first][i]["crash"] and r2.below(60) == 0))]
@@ -751,12 +846,7 @@ def explore(rep, tier, rng, replay, profiles=("debug", "release")):
     res = dict(muts=muts, out=out, tot=tots, model=model, bases=bases, masks=masks)
     if not replay:
         fl, fn = descriptor_cases(bases, core.Rng(rng.next()), tier)
-        def run_free(binary):
-            o = core.run_cases(binary, fl)
-            for i in [i for i, x in enumerate(o) if x is None or x.startswith("CRASH")]:
-                o[i] = core.run_cases(binary, [fl[i]], shards=1)[0]     # alone: a dead process takes its neighbours' results with it
-            return o
-        res["free"] = dict(lines=fl, notes=fn, out={p: run_free(bins[p]) for p in profiles}, model=core.run_cases(core.DRIVER, fl))
+        res["free"] = dict(lines=fl, notes=fn, out={p: run_lines(bins[p], fl) for p in profiles}, model=core.run_cases(core.DRIVER, fl))
         big = big_testdata()
         bm = [dict(kind="unmodified", base="t:" + fn_[:-4], phys=d) for fn_, d in big]
         res["big"] = dict(muts=bm, out={p: run_tot(bins[p], bm, [0, 63]) for p in profiles})
